@@ -147,7 +147,7 @@ Qed.
 Theorem spectator_replays_host :
   forall (sparse : bool) (ops : list sop) (n w d : Z) (kinds : list pkind) (eps : list (list Z)) (nspec : nat)
          (p : p2p) (outs : list (pout * apires)) (mfb cs : Z) (opsS : list Spectator.sp_hop),
-  1 <= w -> 0 <= d -> w + d + 3 <= QLEN -> 0 < n -> Z.of_nat (length kinds) = n -> players_only kinds -> (0 < nspec)%nat ->
+  mode_ok sparse w d -> 0 <= d -> 0 < n -> Z.of_nat (length kinds) = n -> players_only kinds -> (0 < nspec)%nat ->
   srun_in predict (session_start n w sparse d kinds eps nspec) ops = Ok (p, outs) ->
   Spectator.sp_wf n opsS -> SpectatorProofs.sp_hlen (Spectator.sp_hist opsS) < 2 ^ 31 ->
   spectator_got_prefix outs opsS ->
@@ -161,16 +161,18 @@ Theorem spectator_replays_host :
        forall h hist low, nth_error gs h = Some (hist, low) ->
          nth h (map fst (nth k del [])) 0 = gvalL (g_hist g) (Z.of_nat k) h).
 Proof.
-  intros sparse ops n w d kinds eps nspec p outs mfb cs opsS Hw Hd Hc Hn Hl Hp Hns H Hwf Hlen Hlink.
+  intros sparse ops n w d kinds eps nspec p outs mfb cs opsS Hm Hd Hn Hl Hp Hns H Hwf Hlen Hlink.
   assert (HH : exists g gs, exec_outs w (game0 w) outs = Some g /\ QSg sparse w d p gs /\
     all_spec_sends outs = map (fun f => (f, held_at gs f)) (zrange_from 0 (Z.to_nat (ps_next_spec p))) /\
     0 <= ps_next_spec p /\ s_last_confirmed (ps_sync p) + 1 <= ps_next_spec p /\
     (forall h hist low f, nth_error gs h = Some (hist, low) ->
        0 <= f <= s_last_confirmed (ps_sync p) -> f < s_current (ps_sync p) ->
        f < hlen hist /\ gvalL (g_hist g) f h = hval hist f)).
-  { destruct sparse.
-    - exact (sparse_host_broadcast_and_game predict predict_idem predict_zero ops n w d kinds eps nspec p outs Hw Hd Hc Hn Hl Hp Hns H).
-    - exact (host_broadcast_and_game predict predict_idem predict_zero ops n w d kinds eps nspec p outs Hw Hd Hc Hn Hl Hp Hns H). }
+  { destruct Hm as [(Hw & Hc)|(-> & -> & Hc)].
+    - destruct sparse.
+      + exact (sparse_host_broadcast_and_game predict predict_idem predict_zero ops n w d kinds eps nspec p outs Hw Hd Hc Hn Hl Hp Hns H).
+      + exact (host_broadcast_and_game predict predict_idem predict_zero ops n w d kinds eps nspec p outs Hw Hd Hc Hn Hl Hp Hns H).
+    - exact (lockstep_host_broadcast_and_game predict predict_idem predict_zero ops n d kinds eps nspec p outs Hd Hc Hn Hl Hp Hns H). }
   destruct HH as (g & gs & Ex & HQS & Hall & Hns0 & _ & Hheld).
   destruct (SpectatorProofs.sp_c06_order n mfb cs opsS ltac:(lia) Hwf Hlen) as (t & Et & Hdel & Hcur & Hle & Hlast).
   exists t, g, gs. split; [exact Et|]. split; [exact Ex|]. split; [exact HQS|]. cbv zeta.
@@ -191,9 +193,9 @@ Proof.
   split; [exact Hv|].
   intros Hkc Hkcur h hh low Eg. rewrite Hv.
   destruct (Hheld h hh low (Z.of_nat k) Eg ltac:(lia) Hkcur) as (_ & Hg). rewrite Hg.
-  assert (Hm : nth_error (map (fun gh : ghost => hval (fst gh) (Z.of_nat k)) gs) h = Some (hval hh (Z.of_nat k))).
+  assert (Hmm : nth_error (map (fun gh : ghost => hval (fst gh) (Z.of_nat k)) gs) h = Some (hval hh (Z.of_nat k))).
   { rewrite nth_error_map. unfold ghost in *. rewrite Eg. reflexivity. }
-  exact (nth_error_nth _ _ _ Hm).
+  exact (nth_error_nth _ _ _ Hmm).
 Qed.
 
 End System.
